@@ -455,7 +455,7 @@ func c20Run(c *explore.Ctx, cf c20Cfg, seq []int) int {
 			sort.Strings(keys)
 			bad := false
 			for _, k := range keys {
-				if strings.Contains(k, "SubscriptionStats") || strings.Contains(k, "DroppedTotal") {
+				if strings.Contains(k, "SubscriptionStats") {
 					continue
 				}
 				if got[k] != T.m[k] {
@@ -511,7 +511,12 @@ func c20Enqueue(T *c20Truth, cf c20Cfg, q *[]c20Q, matches, online bool, pubQos 
 				break
 			}
 		}
+		dropped := func(q byte, cause string) {
+			T.add(fmt.Sprintf("global.MessageStats.Qos%d.DroppedTotal.%s", q, cause), 1)
+			T.add(fmt.Sprintf("client:a.MessageStats.Qos%d.DroppedTotal.%s", q, cause), 1)
+		}
 		if victim >= 0 {
+			dropped((*q)[victim].qos, "InflightExpired")
 			*q = append(append([]c20Q{}, (*q)[:victim]...), (*q)[victim+1:]...)
 			*q = append(*q, c20Q{qos: qos})
 			return
@@ -531,8 +536,11 @@ func c20Enqueue(T *c20Truth, cf c20Cfg, q *[]c20Q, matches, online bool, pubQos 
 			}
 		}
 		if victim >= 0 {
+			dropped((*q)[victim].qos, "QueueFull")
 			*q = append(append([]c20Q{}, (*q)[:victim]...), (*q)[victim+1:]...)
 			*q = append(*q, c20Q{qos: qos})
+		} else {
+			dropped(qos, "QueueFull") // the newcomer
 		}
 		return
 	}
